@@ -21,6 +21,7 @@ CONSTANTS
   AlignUp = FALSE
   MaxDtor = 1
   DtorFirst = TRUE
+  MaxFail = 1
   MaxDtorMoves = 1
   MaxOwner = 2
 INVARIANTS TypeOK Exclusive BlockAlive BookkeepingTruthful LargeEnough SizeRoundTrip HeapFallbackFreedOnce TrailerTruthful MtSafeNeverShares BusyMeansInUse ReuseBlock ExtraCtorDtorOnce ExtraDiesInOwnBlock
